@@ -168,7 +168,10 @@ class EGen:
         if k == 4:
             op = r.choice(["not", "bnot", "neg", "plus", "void", "typeof"])
             a = self.expr(d - 1)
-            if op == "typeof" and re.fullmatch(r"\w+", a[0]) and not a[1][0].startswith("lit"):
+            if self.constlike(a):      # constant operands only in the combinations the model's evalUn knows
+                x = self.const(2)
+                return x[0], x[1]
+            if op == "typeof" and a[1][0].startswith("id:"):
                 n, c = a[0], a[1][0].split(":")[1]
                 return "(typeof %s)" % n, ["tyid:%s:%s" % (c, n)]
             return "(%s%s)" % (UN[op], a[0]), ["un:" + op] + a[1]
@@ -188,7 +191,7 @@ class EGen:
                 a = self.args(d)
                 return "(delete %s(%s))" % (n, a[0]), ["delcall", "callid:%s:%s:%d" % (cl, n, a[2])] + a[1]
             x = self.expr(d - 1)
-            if re.fullmatch(r"\w+", x[0]) or x[1][0].split(":")[0] in ("dot", "idx", "callid", "calldot", "callidx", "callother", "id"):
+            if x[1][0].split(":")[0] in ("dot", "idx", "callid", "calldot", "callidx", "callother", "id"):
                 x = self.const(1)
             return "(delete (%s, %s))" % ("0", x[0]), ["delother", "comma", "lit:n:0"] + x[1]
         if k == 6:
@@ -209,6 +212,9 @@ class EGen:
         if k < 9:
             op = r.choice(list(BIN))
             a, b = self.expr(d - 1), self.expr(d - 1)
+            if self.constlike(a) and self.constlike(b):   # both constant: only the foldings the model's evalBin knows
+                x = self.const(2)
+                return x[0], x[1]
             if op == "exp":
                 a = ("(%s)" % a[0], a[1])
             return "((%s) %s (%s))" % (a[0], BIN[op], b[0]), ["bin:" + op] + a[1] + b[1]
@@ -316,6 +322,10 @@ class EGen:
         e = self.expr(d - 1)
         return "(%s)" % e[0], e[1]
 
+    @staticmethod
+    def constlike(e):
+        return e[1][0].split(":")[0] in ("lit", "un", "bin", "log", "delother")
+
     def nonconst(self, d):
         for _ in range(10):
             e = self.expr(d)
@@ -347,10 +357,14 @@ def corr1_cases(rng, n):
         g = EGen(rng, ctx, strict)
         js, toks = g.expr(rng.choice([1, 2, 2, 3, 3, 4]))
         # top-level: expression statement value is needed (putOnStack = true, then saveResult); in functions it is discarded
-        p = 1 if ctx == "g" else 0
-        if p == 0 and rng.random() < 0.4:
-            # exercise putOnStack = true inside a function: `l = <expr>` … modelled as assignment to a lexical
-            js, toks = "(l = (%s))" % js, ["asid:lv:l"] + toks
+        # an expression statement that is not the last one of its body is compiled with putOnStack = false
+        p = 0
+        if rng.random() < 0.4:
+            # exercise putOnStack = true at the top of the expression: `l = <expr>` / `g2 = <expr>`
+            if ctx == "g":
+                js, toks = "(g2 = (%s))" % js, ["asid:gl:g2"] + toks
+            else:
+                js, toks = "(l = (%s))" % js, ["asid:lv:l"] + toks
         cases.append({"ctx": ctx, "strict": strict, "js": js, "toks": toks, "p": p, "src": wrap(ctx, strict, js, p)})
     return cases
 
@@ -381,20 +395,37 @@ def shrink(src, fails, budget_s=20):
     return "".join(toks)
 
 
-def signature(kind, detail, small, still_fails):
+def signature(kind, detail, small, still_fails, compiles=lambda s: True):
     """canonical class of a minimised failing source"""
     if kind == "compiler-bug-diagnostic" and "Unknown expression type: *ast.PrivateIdentifier" in detail:
         return "C01:compiler-bug-diagnostic:bare-private-identifier-expression"
     # optional call with spread arguments: removing the `?.` before `(` removes the failure
-    if re.search(r"\?\.\s*\(", small) and "..." in small:
+    if "?." in small and "(" in small:
+        # optional chain around a call: making the chain non-optional removes the failure
         alt = re.sub(r"\?\.\s*\(", "(", small)
+        alt = re.sub(r"\?\.\s*\[", "[", alt)
+        alt = re.sub(r"\?\.(?=[A-Za-z_$#])", ".", alt)
         if not still_fails(alt):
-            return "C01:%s:optional-call-with-spread-arguments" % ("stack-leak-or-crash")
-    # assignment to the name of a sloppy named function expression with the value discarded: strict mode removes it
-    m = re.search(r"function\s*\*?\s*([A-Za-z_$][\w$]*)\s*\(", small)
-    if m and re.search(r"(?<![\w$.])%s\s*(=(?!=)|\+\+|--|[-+*/%%&|^]=|<<=|>>=|>>>=|\*\*=)|(\+\+|--)\s*%s(?![\w$])" % (re.escape(m.group(1)), re.escape(m.group(1))), small):
-        if not still_fails('"use strict";\n' + small):
+            return "C01:stack-leak-or-crash:optional-call-short-circuit"
+    if kind == "compiler-bug-diagnostic":
+        m = re.search(r"(Compiler bug|BUG): (.*?)( at .*)?$", detail or "")
+        if m:
+            return "C01:compiler-bug-diagnostic:" + re.sub(r"[^A-Za-z.*]+", "-", re.sub(r"\d+", "N", m.group(2))).strip("-")[:70]
+    # write to the own name of a sloppy named function expression (=, op=, ++, for-in/of target) with the value discarded:
+    # making that function strict (the write then throws instead of being ignored) removes the failure, and the strict
+    # variant still compiles (otherwise the test is inconclusive)
+    for m in re.finditer(r"function\s*\*?\s*([A-Za-z_$][\w$]*)\s*\([^)]*\)\s*\{", small):
+        name = m.group(1)
+        if not re.search(r"(?<![\w$.])%s\s*(=(?!=)|\+\+|--|[-+*/%%&|^]=|<<=|>>=|>>>=|\*\*=|&&=|\|\|=|\?\?=|\s+in\b|\s+of\b)|(\+\+|--)\s*%s(?![\w$])"
+                         % (re.escape(name), re.escape(name)), small):
+            continue
+        alt = small[:m.end()] + '"use strict";' + small[m.end():]
+        if still_fails(alt) is False and compiles(alt):
             return "C01:stack-leak-or-crash:assignment-to-sloppy-function-expression-name-value-discarded"
+    # Go runtime panics whose root cause is not isolated yet are keyed by panic site + message shape (digits erased)
+    m = re.search(r"runtime\.\w+: (.*?) @(.*)$", detail or "")
+    if kind == "panic-in-run" and m:
+        return "C01:panic-in-run:%s@%s" % (re.sub(r"\d+", "N", m.group(1)).replace(" ", "-")[:60], m.group(2)[:60])
     return "C01:%s:%s" % (kind, hashlib.sha1(small.encode("utf8", "replace")).hexdigest()[:12])
 
 
@@ -462,6 +493,17 @@ def main(ctx):
         return bool(verify_units((r.get("units") or [])))
 
     def report(src, kind, detail, origin):
+        # eval placement: continue with the evaluated text itself when it fails the same way on its own
+        m = re.match(r'^\s*(?:"use strict";\s*)?(?:\(0,\s*eval\)|eval)\((".*")\);?\s*$', src, re.S)
+        if m:
+            try:
+                inner = json.loads(m.group(1))
+                r0 = run_src(inner)
+                if r0.get("violation") == kind or (kind == "verify-reject" and verify_units(r0.get("units") or [])):
+                    src, detail = inner, (r0.get("detail") or detail)
+            except ValueError:
+                pass
+
         def same(s):
             r = run_src(s)
             if r.get("violation"):
@@ -470,7 +512,9 @@ def main(ctx):
                 return bool(verify_units((r.get("units") or [])))
             return False
         small = shrink(src, same, budget_s=12 if quick else 30)
-        sig = signature(kind, detail, small, fails_any)
+        if not small.strip() or not same(small):
+            small = src
+        sig = signature(kind, detail, small, fails_any, lambda s: run_src(s).get("outcome") not in ("syntax", ""))
         r = run_src(small)
         st = ctx.violation(sig, "%s (%s): %s" % (kind, origin, small[:160].replace("\n", " ")),
                            {"kind": "program", "source": small, "original_source": src[:4000], "violation": kind, "detail": detail,
@@ -584,8 +628,7 @@ def main(ctx):
             tail = (err or out)[-600:]
             last = ""
             try:
-                lines = open(pfx + ".src", errors="replace").read().splitlines()
-                last = json.loads(lines[-1])["src"] if lines else ""
+                last = open(pfx + ".cur", errors="surrogateescape").read()
             except Exception:
                 pass
             ctx.obligation("search:shard-%d-survived" % sh, "correspondence", False, tail)
@@ -606,9 +649,9 @@ def main(ctx):
             ctx.sample({"generated": x[:300]})
     seen_sig = {}
     for s in sums:
-        for v in s["violations"]:
+        for v in (s["violations"] or []):
             key = (v["kind"], v["detail"][:60])
-            if seen_sig.get(key, 0) >= 2:
+            if seen_sig.get(key, 0) >= 4:
                 continue
             seen_sig[key] = seen_sig.get(key, 0) + 1
             report(v["src"], v["kind"], v["detail"], "search/" + v["class"])
